@@ -153,7 +153,10 @@ def check(pid, tier, seed, a):
     crashes = [r for r in results if r.error and r.error[0] == "crash"]
     bindfail = [r for r in results if r.error and r.error[0] in ("binding", "unsupported")]
     failed = [o for o in obls if o.expect != "sat" and o.verdict != "discharged"]
-    vacuous = [o for o in obls if o.expect == "sat" and o.verdict == "vacuous"]
+    vacuous = [o for o in obls if o.expect == "sat" and o.verdict == "vacuous" and not o.id.endswith("/vacuity/exit_reachable")]
+    # no return path is reachable under the contract's precondition (e.g. an assertion that always fails): the function cannot
+    # deliver what the property promises -- a violated obligation, not a checker problem
+    no_exit = [o for o in obls if o.expect == "sat" and o.verdict == "vacuous" and o.id.endswith("/vacuity/exit_reachable")]
     solver_err = [o for o in failed if o.verdict == "error"]
     n_proof_obl = len([o for o in obls if o.expect != "sat"])
     n_discharged = len([o for o in obls if o.expect != "sat" and o.verdict == "discharged"])
@@ -181,6 +184,21 @@ def check(pid, tier, seed, a):
             return k
         return None
 
+    for o in no_exit:
+        path = os.path.join(OUT, "replays", f"{pid}-{slug(o.id)}.json")
+        os.makedirs(os.path.dirname(path), exist_ok=True)
+        with open(path, "w") as fh:
+            json.dump({"property": pid, "obligation": o.id, "kind": "vacuity", "function": getattr(o, "func", None),
+                       "solver_output": "no return path of the function is reachable under the contract's precondition (unsat)", "input": None}, fh, indent=1)
+        violations.append((o.id, path, False))
+    if st_res and st_res.get("error") and re.search(r"crashed \(rc=-\d+\)", st_res["error"]):
+        # the process running the real (compiled) code was killed by a signal (memory corruption, abort): the code under test failed
+        path = os.path.join(OUT, "replays", f"{pid}-standin-process_abort.json")
+        os.makedirs(os.path.dirname(path), exist_ok=True)
+        with open(path, "w") as fh:
+            json.dump({"property": pid, "obligation": "bounded:process_abort", "found_by": "bounded", "input": None, "solver_output": st_res["error"][:2000]}, fh, indent=1)
+        violations.append(("bounded:process_abort", path, False))
+        st_res = dict(st_res, error=None)
     n_cex = [0]
     st_viol = (st_res or {}).get("violations", [])
     # violations found by the stand-in (replayed input on the real code)
